@@ -587,7 +587,7 @@ func c11(c *ev.Ctx) {
 	raceReports := map[string]int{}
 	nRace := 0
 	for p := 0; p < procs; p++ {
-		cmd := exec.Command("timeout", "-s", "QUIT", fmt.Sprint(c.Pick(600, 3000)), self, "worker", "c11", fmt.Sprint(c.Seed*100+int64(p)), fmt.Sprint(per), fmt.Sprint(G), fmt.Sprint(runsEach))
+		cmd := exec.Command("timeout", "-s", "QUIT", fmt.Sprint(c.Pick(299, 3000)), self, "worker", "c11", fmt.Sprint(c.Seed*100+int64(p)), fmt.Sprint(per), fmt.Sprint(G), fmt.Sprint(runsEach))
 		cmd.Env = append(os.Environ(), fmt.Sprintf("GORACE=halt_on_error=0 log_path=%s.%d", logBase, p))
 		errf, _ := os.Create(filepath.Join(work, fmt.Sprintf("stderr.%d", p)))
 		cmd.Stderr = errf
